@@ -3,7 +3,18 @@
 package extendeddaemonsetreplicaset
 
 import (
+	"context"
+	"errors"
 	"time"
+
+	"github.com/go-logr/logr"
+	apierrors "k8s.io/apimachinery/pkg/api/errors"
+	"k8s.io/apimachinery/pkg/runtime/schema"
+	"k8s.io/apimachinery/pkg/types"
+	"sigs.k8s.io/controller-runtime/pkg/reconcile"
+
+	edsctrl "github.com/DataDog/extendeddaemonset/controllers/extendeddaemonset"
+	"github.com/DataDog/extendeddaemonset/zzverif/fakeapi"
 
 	corev1 "k8s.io/api/core/v1"
 	metav1 "k8s.io/apimachinery/pkg/apis/meta/v1"
@@ -54,4 +65,63 @@ func ZZ_C05_failedMarkOutlivesTheCanary() {
 	nondet.Assert("C05.mark.failed-condition-survives", still)
 	nondet.Observe("still", still)
 	nondet.Reach("C05.mark.leftover-role", role == "leftover")
+}
+
+// ZZ_C05_manualFailRacingWithTheSync: "A canary marked failed is never promoted by elapsed time" — the
+// mark has two writers, the replica-set controller and `kubectl-eds canary fail`.  The command's write
+// lands between the read and the status write of a sync of the canary replica set: the API server
+// answers that write with a Conflict.  Whatever the sync does about it, the mark survives — after the
+// conflicting sync, after the next one (one minute later), and the ExtendedDaemonSet reconcile that
+// follows (canary duration elapsed) does not promote the failed canary.
+func ZZ_C05_manualFailRacingWithTheSync() {
+	c, ds, rsNew, rsOld := zzStore(2)
+	ds.Spec.Strategy.Canary = &datadoghqv1alpha1.ExtendedDaemonSetSpecStrategyCanary{Duration: &metav1.Duration{Duration: nondet.Duration("canary.duration", time.Minute, time.Hour)}}
+	datadoghqv1alpha1.DefaultExtendedDaemonSetSpec(&ds.Spec, datadoghqv1alpha1.ExtendedDaemonSetSpecStrategyCanaryValidationModeAuto)
+	ds.Spec.Template = rsNew.Spec.Template
+	ds.Status.ActiveReplicaSet = rsOld.Name
+	ds.Status.Canary = &datadoghqv1alpha1.ExtendedDaemonSetStatusCanary{ReplicaSet: rsNew.Name, Nodes: []string{zzNodeName(0)}}
+	ds.Status.State = datadoghqv1alpha1.ExtendedDaemonSetStatusStateCanary
+	rsNew.CreationTimestamp = metav1.NewTime(nondet.Base().Add(-nondet.Duration("canary.age", time.Minute, 2*time.Hour)))
+	rsOld.CreationTimestamp = metav1.NewTime(nondet.Base().Add(-24 * time.Hour))
+	c.Pods = append(c.Pods,
+		zzPod("canary-pod", zzNodeName(0), zzRSName, zzHashNew, 0, corev1.PodRunning, true, nondet.Base().Add(-9*time.Minute)),
+		zzPod("active-pod", zzNodeName(1), zzOldRS, zzHashOld, 0, corev1.PodRunning, true, nondet.Base().Add(-time.Hour)))
+	raced := false
+	c.OnStatusUpdate = func(kind, name string) error {
+		if raced || kind != "ExtendedDaemonSetReplicaSet" || name != rsNew.Name {
+			return nil
+		}
+		raced = true
+		// the command got in first: it wrote Canary-Failed=True on the stored replica set
+		for _, s := range c.ERS {
+			if s.Name == rsNew.Name {
+				at := metav1.NewTime(nondet.Base())
+				s.Status.Conditions = append(s.Status.Conditions, datadoghqv1alpha1.ExtendedDaemonSetReplicaSetCondition{Type: datadoghqv1alpha1.ConditionTypeCanaryFailed, Status: corev1.ConditionTrue, Reason: "ManuallyFailed", LastTransitionTime: at, LastUpdateTime: at})
+			}
+		}
+		return apierrors.NewConflict(schema.GroupResource{Resource: "extendeddaemonsetreplicasets"}, name, errors.New("the object has been modified"))
+	}
+	failedMark := func() bool {
+		for _, s := range c.ERS {
+			if s.Name == rsNew.Name {
+				for _, cd := range s.Status.Conditions {
+					if cd.Type == datadoghqv1alpha1.ConditionTypeCanaryFailed && cd.Status == corev1.ConditionTrue {
+						return true
+					}
+				}
+			}
+		}
+		return false
+	}
+	r := zzReconciler(c, false)
+	_, _ = zzReconcile(r, zzNS, rsNew.Name)
+	nondet.Assert("C05.race.the-other-write-happened", raced)
+	nondet.Assert("C05.race.mark-survives-the-conflicting-sync", failedMark())
+	zzKubelet(c)
+	_, _ = zzReconcile(r, zzNS, rsNew.Name)
+	nondet.Assert("C05.race.mark-survives-the-next-sync", failedMark())
+	edsRec, _ := edsctrl.NewReconciler(edsctrl.ReconcilerOptions{DefaultValidationMode: datadoghqv1alpha1.ExtendedDaemonSetSpecStrategyCanaryValidationModeAuto}, c, c.Scheme(), logr.Logger{}, &fakeapi.Recorder{})
+	_, _ = edsRec.Reconcile(context.TODO(), reconcile.Request{NamespacedName: types.NamespacedName{Namespace: zzNS, Name: zzEDSName}})
+	nondet.Assert("C05.race.failed-canary-not-promoted", c.EDS[0].Status.ActiveReplicaSet == rsOld.Name)
+	nondet.Reach("C05.race.done", raced && failedMark())
 }
